@@ -24,7 +24,7 @@ Qed.
 
 (* the same run with the guarded parser, which meets the assumptions of the theorems *)
 Lemma ex_connects_guarded :
-  exists sd, fst (run_connect Debug (guard_bytes (ber_connect_response Debug)) no_tls no_tls ex_config ex_conversation) = Ok (1004, sd).
+  exists sd, fst (run_connect Debug (guard_bytes (ber_connect_response Debug)) false no_tls no_cssp ex_config ex_conversation) = Ok (1004, sd).
 Proof. eexists. vm_compute. reflexivity. Qed.
 
 (* the inputs that made the unrepaired code panic are now errors, in both profiles *)
@@ -33,7 +33,7 @@ Lemma ex_repaired : forall p,
   fst (gcc_impl p ex_gcc_blocklen3) = Err EInvalidSize /\
   fst (gcc_impl p ex_gcc_no_net) = Err EInvalidData /\
   fst (gcc_impl p ex_gcc_no_core) = Err EInvalidData /\
-  fst (connect_impl p ex_config [ex_cc_hybrid]) = Err EInvalidOptionalField.
+  fst (connect_impl p ex_config_nla_noauth [ex_cc_hybrid]) = Err EInvalidOptionalField.
 Proof. intros p. destruct p; vm_compute; repeat split. Qed.
 
 (* yasna as modelled from its source violates "never unwinds" on a hostile BER length *)
